@@ -450,6 +450,23 @@ pub fn run(run: &mut Run) -> PResult {
             return run.violation("C15.from_text", &f.value, json!({"text": f.value}), &m);
         }
     }
+    count_soak(run, "peeling small sets to exhaustion", (1 << 23) + (1 << 12), &|n| {
+        let x: u64 = (1u64 << (n % 52)) | (1u64 << ((n / 52) % 52)) | (1u64 << ((n / 2704) % 52)) | if n % 16 == 3 { 1u64 << (52 + n % 12) } else { 0 };
+        let mut s = x;
+        let mut last = 64i64;
+        for _ in 0..(x & ALL52).count_ones() {
+            let b = s.peel();
+            let pos = b.trailing_zeros() as i64;
+            if b.count_ones() != 1 || pos >= 52 || pos >= last || x & b == 0 {
+                return Err(format!("peeling {:#x} returned {:#x} after bit position {}", x, b, last));
+            }
+            last = pos;
+        }
+        if s.peel() != 0 || s != x & !ALL52 {
+            return Err(format!("after peeling all members of {:#x} the set is {:#x} and another peel does not return blank", x, s));
+        }
+        Ok(())
+    })?;
     // structured sets: peel to exhaustion
     {
         let mut sets: Vec<u64> = vec![0, ALL52, u64::MAX, !ALL52, 1 << 52, (1 << 52) | 1];
@@ -525,7 +542,7 @@ pub fn run(run: &mut Run) -> PResult {
 }
 
 pub fn check_case(clause: &str, case: &Value) -> Result<(), String> {
-    if clause.ends_with(".after_disturbance") || clause.ends_with(".concurrent") || clause.ends_with(".concurrent_cold_start") {
+    if clause.ends_with(".after_disturbance") || clause.ends_with(".concurrent") || clause.ends_with(".concurrent_cold_start") || clause.ends_with(".after_repetition") {
         return super::common::replay_after_disturbance(case, check_case);
     }
     match clause {
@@ -553,6 +570,15 @@ pub fn run_c16(run: &mut Run) -> PResult {
         }
         disturbance_pass(run, &vals, &|x| two_clause(*x), &|x| ("C16.try_from".into(), json!({"set": format!("{:#x}", x)}), format!("{:#x}", x)))?;
     }
+    count_soak(run, "Two::try_from on one-, two- and three-bit sets", (1 << 25) + (1 << 12), &|n| {
+        let x: u64 = match n % 4 {
+            0 => (1u64 << (n % 52)) | (1u64 << ((n / 52) % 52)),
+            1 => (1u64 << (n % 64)) | (1u64 << ((n / 64) % 64)),
+            2 => 1u64 << (n % 64),
+            _ => (1u64 << (n % 52)) | (1u64 << ((n / 5) % 52)) | (1u64 << ((n / 13) % 64)),
+        };
+        two_clause(x)
+    })?;
     let mut n = 0u64;
     let mut nt = 0u64;
     let mut valid2 = 0u64;
@@ -640,7 +666,7 @@ pub fn run_c16(run: &mut Run) -> PResult {
 }
 
 pub fn check_case_c16(clause: &str, case: &Value) -> Result<(), String> {
-    if clause.ends_with(".after_disturbance") || clause.ends_with(".concurrent") || clause.ends_with(".concurrent_cold_start") {
+    if clause.ends_with(".after_disturbance") || clause.ends_with(".concurrent") || clause.ends_with(".concurrent_cold_start") || clause.ends_with(".after_repetition") {
         return super::common::replay_after_disturbance(case, check_case_c16);
     }
     match clause {
